@@ -65,8 +65,11 @@ enum Pat {
     SleepBehindCancelledTimer,
     /// N tasks whose 0.5 s sleep was polled once (pending) and is then reset to 1 s
     SleepResetToLater,
+    /// the first incarnation has a timer pending (due at 1.5 s) when it shuts down at 1 s; the
+    /// restart at 2.5 s spawns N tasks that sleep for 0.2 s
+    RestartAfterPendingTimer,
 }
-const PATS: [Pat; 23] = [
+const PATS: [Pat; 24] = [
     Pat::Sleepers,
     Pat::Chain,
     Pat::NotifyAll,
@@ -90,6 +93,7 @@ const PATS: [Pat; 23] = [
     Pat::StartThenShutdown,
     Pat::SleepBehindCancelledTimer,
     Pat::SleepResetToLater,
+    Pat::RestartAfterPendingTimer,
 ];
 
 #[derive(Clone, Copy, Debug, PartialEq, Eq)]
@@ -202,6 +206,22 @@ impl Module for Mo {
                     spawn_kind(k, async move {
                         let _ = tx.send(());
                     });
+                }
+            }
+            Pat::RestartAfterPendingTimer => {
+                if self.incarnation == 1 {
+                    spawn_kind(k, async move {
+                        sleep(Duration::from_millis(1500)).await;
+                    });
+                    schedule_in(Message::default().kind(13), Duration::from_secs(1));
+                } else {
+                    for i in 0..n {
+                        let l = self.log.clone();
+                        spawn_kind(k, async move {
+                            sleep(Duration::from_millis(200)).await;
+                            l.lock().unwrap().push((i as u32, now()));
+                        });
+                    }
                 }
             }
             Pat::SleepResetToLater => {
@@ -417,6 +437,7 @@ impl Module for Mo {
                 current().shutdow_and_restart_in(Duration::from_secs(1));
             }
             12 => current().shutdown(),
+            13 => current().shutdow_and_restart_in(Duration::from_millis(1500)),
             _ => {}
         }
     }
@@ -455,6 +476,7 @@ fn expected_time(c: &Case) -> u64 {
     match c.pat {
         Pat::StartStage | Pat::ElementEndHookOnStart | Pat::StartThenShutdown => 0,
         Pat::Restart => 2000,
+        Pat::RestartAfterPendingTimer => 2700,
         _ => 1000,
     }
 }
@@ -614,7 +636,7 @@ impl Property for C06 {
                     }
                     match pat {
                         Pat::Chain | Pat::TimerThenNotify => ctx.hit("wake_chain"),
-                        Pat::Restart => ctx.hit("restart_trigger"),
+                        Pat::Restart | Pat::RestartAfterPendingTimer => ctx.hit("restart_trigger"),
                         Pat::NotifyThenShutdown | Pat::NotifyThenRestart | Pat::SleepersThenShutdown | Pat::StartThenShutdown => ctx.hit("shutdown_requested_in_the_event"),
                         Pat::StartStage => ctx.hit("start_stage_trigger"),
                         Pat::Sleepers => ctx.hit("timer_trigger"),
